@@ -518,3 +518,77 @@ package main
 //@        && len(old(asRef(msg.headers[firstIdx(msg.headers, "Via")].value, "*Via").params)) >= 1 ==> err == nil
 //@   ensures frame: forall h *Header :: firstIdx(msg.headers, "Via") < 0 || h != msg.headers[firstIdx(msg.headers, "Via")] ==> h.value == old(h.value)
 //@   ensures typed-kept: firstIdx(msg.headers, "Via") >= 0 && isType(old(msg.headers[firstIdx(msg.headers, "Via")].value), "*Via") ==> (forall h *Header :: h.value == old(h.value))
+
+// ---- lazy typed getters: decode the first header of that name in place, touch nothing else ----
+
+//@ func ParseFromSpec
+//@   props C16 C08
+//@   ensures err == nil ==> result != nil && fresh(result)
+//@   ensures err != nil ==> result == nil
+
+//@ func ParseTo
+//@   props C16 C08
+//@   ensures err == nil ==> result != nil && fresh(result)
+//@   ensures err != nil ==> result == nil
+
+//@ func parseRouteParam
+//@   props C13 C08
+//@   ensures err == nil ==> result != nil && fresh(result) && result.nameAddr != nil && result.nameAddr.Addr != nil
+//@   ensures err != nil ==> result == nil
+
+//@ func ParseRoute
+//@   props C13 C08
+//@   ensures ok: err == nil ==> result != nil && fresh(result) && len(result.routeParams) == len(split(s, ",")) && len(result.routeParams) >= 1
+//@   ensures ok-entries: err == nil ==> (forall k int :: 0 <= k && k < len(result.routeParams) ==> result.routeParams[k] != nil && fresh(result.routeParams[k]) && result.routeParams[k].nameAddr != nil && result.routeParams[k].nameAddr.Addr != nil)
+//@   ensures bad: err != nil ==> result == nil
+//@   loop 0:
+//@     invariant 0 <= $i && $i <= len(split(s, ",")) && len(route.routeParams) == $i
+//@     invariant forall k int :: 0 <= k && k < len(route.routeParams) ==> route.routeParams[k] != nil && fresh(route.routeParams[k]) && route.routeParams[k].nameAddr != nil && route.routeParams[k].nameAddr.Addr != nil
+
+//@ func (*Message).GetCSeq
+//@   props C02 C04 C12
+//@   modifies Header.value
+//@   ensures none: firstIdx(m.headers, "CSeq") < 0 ==> err != nil
+//@   ensures failed: err != nil ==> (forall h *Header :: h.value == old(h.value)) && result == nil
+//@   ensures typed: firstIdx(m.headers, "CSeq") >= 0 && isType(old(m.headers[firstIdx(m.headers, "CSeq")].value), "*CSeq") ==>
+//@        err == nil && result == asRef(old(m.headers[firstIdx(m.headers, "CSeq")].value), "*CSeq") && (forall h *Header :: h.value == old(h.value))
+//@   ensures parsed: firstIdx(m.headers, "CSeq") >= 0 && isType(old(m.headers[firstIdx(m.headers, "CSeq")].value), "string") && err == nil ==> fresh(result)
+//@   ensures badtype: firstIdx(m.headers, "CSeq") >= 0 && !isType(old(m.headers[firstIdx(m.headers, "CSeq")].value), "*CSeq") && !isType(old(m.headers[firstIdx(m.headers, "CSeq")].value), "string") ==> err != nil
+//@   ensures frame: forall h *Header :: firstIdx(m.headers, "CSeq") < 0 || h != m.headers[firstIdx(m.headers, "CSeq")] ==> h.value == old(h.value)
+//@   ensures ok-result: err == nil ==> result != nil && m.headers[firstIdx(m.headers, "CSeq")].value == anyRef("*CSeq", result)
+
+//@ func (*Message).GetFrom
+//@   props C16 C04
+//@   modifies Header.value
+//@   ensures none: firstIdx(m.headers, "From") < 0 ==> err != nil
+//@   ensures failed: err != nil ==> (forall h *Header :: h.value == old(h.value)) && result == nil
+//@   ensures typed: firstIdx(m.headers, "From") >= 0 && isType(old(m.headers[firstIdx(m.headers, "From")].value), "*FromSpec") ==>
+//@        err == nil && result == asRef(old(m.headers[firstIdx(m.headers, "From")].value), "*FromSpec") && (forall h *Header :: h.value == old(h.value))
+//@   ensures parsed: firstIdx(m.headers, "From") >= 0 && isType(old(m.headers[firstIdx(m.headers, "From")].value), "string") && err == nil ==> fresh(result)
+//@   ensures badtype: firstIdx(m.headers, "From") >= 0 && !isType(old(m.headers[firstIdx(m.headers, "From")].value), "*FromSpec") && !isType(old(m.headers[firstIdx(m.headers, "From")].value), "string") ==> err != nil
+//@   ensures frame: forall h *Header :: firstIdx(m.headers, "From") < 0 || h != m.headers[firstIdx(m.headers, "From")] ==> h.value == old(h.value)
+//@   ensures ok-result: err == nil ==> result != nil && m.headers[firstIdx(m.headers, "From")].value == anyRef("*FromSpec", result)
+
+//@ func (*Message).GetTo
+//@   props C16 C03 C04
+//@   modifies Header.value
+//@   ensures none: firstIdx(m.headers, "To") < 0 ==> err != nil
+//@   ensures failed: err != nil ==> (forall h *Header :: h.value == old(h.value)) && result == nil
+//@   ensures typed: firstIdx(m.headers, "To") >= 0 && isType(old(m.headers[firstIdx(m.headers, "To")].value), "*To") ==>
+//@        err == nil && result == asRef(old(m.headers[firstIdx(m.headers, "To")].value), "*To") && (forall h *Header :: h.value == old(h.value))
+//@   ensures parsed: firstIdx(m.headers, "To") >= 0 && isType(old(m.headers[firstIdx(m.headers, "To")].value), "string") && err == nil ==> fresh(result)
+//@   ensures badtype: firstIdx(m.headers, "To") >= 0 && !isType(old(m.headers[firstIdx(m.headers, "To")].value), "*To") && !isType(old(m.headers[firstIdx(m.headers, "To")].value), "string") ==> err != nil
+//@   ensures frame: forall h *Header :: firstIdx(m.headers, "To") < 0 || h != m.headers[firstIdx(m.headers, "To")] ==> h.value == old(h.value)
+//@   ensures ok-result: err == nil ==> result != nil && m.headers[firstIdx(m.headers, "To")].value == anyRef("*To", result)
+
+//@ func (*Message).GetRoute
+//@   props C13 C03
+//@   modifies Header.value
+//@   ensures none: firstIdx(m.headers, "Route") < 0 ==> err != nil
+//@   ensures failed: err != nil ==> (forall h *Header :: h.value == old(h.value)) && result == nil
+//@   ensures typed: firstIdx(m.headers, "Route") >= 0 && isType(old(m.headers[firstIdx(m.headers, "Route")].value), "*Route") ==>
+//@        err == nil && result == asRef(old(m.headers[firstIdx(m.headers, "Route")].value), "*Route") && (forall h *Header :: h.value == old(h.value))
+//@   ensures parsed: firstIdx(m.headers, "Route") >= 0 && isType(old(m.headers[firstIdx(m.headers, "Route")].value), "string") && err == nil ==> fresh(result)
+//@   ensures badtype: firstIdx(m.headers, "Route") >= 0 && !isType(old(m.headers[firstIdx(m.headers, "Route")].value), "*Route") && !isType(old(m.headers[firstIdx(m.headers, "Route")].value), "string") ==> err != nil
+//@   ensures frame: forall h *Header :: firstIdx(m.headers, "Route") < 0 || h != m.headers[firstIdx(m.headers, "Route")] ==> h.value == old(h.value)
+//@   ensures ok-result: err == nil ==> result != nil && m.headers[firstIdx(m.headers, "Route")].value == anyRef("*Route", result)
